@@ -69,7 +69,11 @@ def program(draw, case):
         ik = draw(st.integers(0, 5))
         cand = [c["name"] for c in fr["cols"] if c["kind"] in INDEXABLE and c["name"] not in pnames
                 and (c.get("null") or {}).get("pat", "none") == "none"]
-        read["index"] = False if ik == 0 else (draw(st.sampled_from(cand)) if ik == 1 and cand else "default")
+        if ik == 2 and pnames and case["opts"].get("file_scheme") == "hive":
+            # a directory-partition column asked for as the index
+            read["index"] = draw(st.sampled_from(pnames))
+        else:
+            read["index"] = False if ik == 0 else (draw(st.sampled_from(cand)) if ik == 1 and cand else "default")
         ck = draw(st.integers(0, 5))
         catcols = [c["name"] for c in fr["cols"] if c["kind"] == "category" and c["name"] not in pnames]
         if ck == 0 and catcols:
